@@ -17,6 +17,7 @@ import (
 	"os"
 	"runtime"
 	"sort"
+	"strings"
 	"sync"
 
 	"verif/harness/internal/vf"
@@ -131,6 +132,13 @@ func (x *hx) fail(class, format string, a ...any) {
 
 // failOp is fail with the current operation name as the class prefix.
 func (x *hx) failOp(symptom, format string, a ...any) { x.fail(x.cur.N+"-"+symptom, format, a...) }
+
+// mark records key in a distinct-set evidence class.
+func (x *hx) mark(class, key string) {
+	if !x.quiet {
+		x.notes["\x00"+class+"\x00"+key]++
+	}
+}
 
 // note counts a situation of interest (evidence counters).
 func (x *hx) note(name string) {
@@ -365,6 +373,11 @@ func runDef(c *vf.Ctx, d *def, histories, workers int) {
 			c.DistinctHash("states:"+d.name, s)
 		}
 		for k, n := range notes {
+			if strings.HasPrefix(k, "\x00") {
+				p := strings.SplitN(k[1:], "\x00", 2)
+				c.Distinct(p[0], p[1])
+				continue
+			}
 			c.Count(d.name+":"+k, n)
 		}
 		for k := range opc {
@@ -379,6 +392,10 @@ func runDef(c *vf.Ctx, d *def, histories, workers int) {
 		c.Distinct("configs", d.name+"/"+cfg)
 	}
 	for k, n := range d.require {
+		if strings.HasPrefix(k, "\x00") { // a distinct-set class filled by hx.mark
+			c.Require(k[1:], n)
+			continue
+		}
 		c.Require(d.name+":"+k, n)
 	}
 	c.Require("histories:"+d.name, histories)
